@@ -7,7 +7,7 @@ import re
 from ..cexpr import CEval, comments, parse_body, strip_comments
 from ..core import rule
 from ..linear import Poly
-from ..peval import Builtin, Obj, Opaque, Sym, topoly
+from ..peval import Builtin, NpInt, Obj, Opaque, Sym, topoly
 from ..srcmodel import AnalysisError, norm, own_nodes, call_name
 from .kernel import CTYPE
 from .layout import CONF, OFF, Lab, pol
@@ -25,7 +25,9 @@ def build_zoo(lab):
     A1 = lab.array("ArrNFloat64", (None,), (0,), sc["Float64"])
     AT = lab.array("ArrNT", (None,), (0,), T)
     AS = lab.array("ArrNString", (None,), (0,), String)
-    M = lab.array("Arr2x3Int16", (2, 3), (1, 0), sc["Int16"])
+    # (one extent given as a numpy integer, as shapes computed with numpy are: sizes and the offsets of the fields
+    # that follow become numpy integers too -- PF58)
+    M = lab.array("Arr2x3Int16", (NpInt(2), 3), (1, 0), sc["Int16"])
     D2 = lab.array("ArrNx3Float32", (None, 3), (1, 0), sc["Float32"])
     Ref = g("ref", "Ref")
     R = I.call(Ref, [T], {})
